@@ -152,9 +152,13 @@ def gen_spec(rng, provs, j, weird_ok=True):
     kind = rng.random()
 
     def only(inner, names, rename_p=0.4):
-        ids = []
+        ids, used = [], set(names)
         for n in names:
-            ids.append((n, alias_for(rng, n) if rng.random() < rename_p else None))
+            al = alias_for(rng, n) if rng.random() < rename_p else None
+            if al in used:          # two identifiers bound to one name: ambiguous under any reading
+                al = None
+            used.add(al)
+            ids.append((n, al))
         return ("o", ids, inner)
 
     some = rng.sample(P, rng.randint(1, len(P))) if P else []
@@ -166,7 +170,7 @@ def gen_spec(rng, provs, j, weird_ok=True):
         return ("p", rng.choice(PREFIXES), base)
     if kind < 0.68:
         return ("p", rng.choice(PREFIXES), ("p", rng.choice(PREFIXES), base))
-    if kind < 0.93 or not weird_ok:
+    if kind < 0.85 or not weird_ok:
         inner = only(base, some)
         s = ("p", rng.choice(PREFIXES), inner)
         if rng.random() < 0.3:
@@ -191,7 +195,7 @@ def gen_spec(rng, provs, j, weird_ok=True):
     return only(("p", rng.choice(PREFIXES), only(base, some)), some[:1])
 
 
-def gen_graph(rng, n, shape):
+def gen_graph(rng, n, shape, weird):
     mods, provs = [], []
     for k in range(n):
         if k == 0:
@@ -210,7 +214,7 @@ def gen_graph(rng, n, shape):
                 targets.append(0)
         if targets and rng.random() < 0.15:
             targets.append(rng.choice(targets))       # the same module twice, other modifiers
-        reqs = [gen_spec(rng, provs, j) for j in targets]
+        reqs = [gen_spec(rng, provs, j, weird) for j in targets]
         defs = rng.sample(NAMES, rng.randint(1, 4))
         if rng.random() < 0.5 and "p" not in defs:
             defs.append("p")
@@ -231,11 +235,11 @@ def gen_graph(rng, n, shape):
     return mods, provs
 
 
-def gen_requests(rng, mods, provs, nreq):
+def gen_requests(rng, mods, provs, nreq, weird):
     reqs = []
     for _ in range(nreq):
         cnt = 1 if rng.random() < 0.7 else 2
-        specs = [gen_spec(rng, provs, rng.randrange(len(mods))) for _ in range(cnt)]
+        specs = [gen_spec(rng, provs, rng.randrange(len(mods)), weird) for _ in range(cnt)]
         defs = rng.sample(NAMES, rng.randint(1, 2)) if rng.random() < 0.3 else []
         u = rng.random()
         mode = "ok" if u < 0.74 else "syntax" if u < 0.83 else "freeid" if u < 0.93 else "runtime"
@@ -265,8 +269,9 @@ def gen_cases(rng, ngraphs, max_mods, orders, tag):
     for gi in range(ngraphs):
         shape = shapes[gi % len(shapes)]
         n = rng.randint(2 if shape != "diamond" else 3, max_mods)
-        mods, provs = gen_graph(rng, n, shape)
-        base = gen_requests(rng, mods, provs, rng.randint(3, 6))
+        weird = rng.random() < 0.3      # forms on which flattening and composing modifiers differ
+        mods, provs = gen_graph(rng, n, shape, weird)
+        base = gen_requests(rng, mods, provs, rng.randint(3, 6), weird)
         seen = set()
         for oi in range(orders):
             reqs = list(base)
@@ -317,7 +322,8 @@ def elab(text):
 def real_batch(args):
     idx, text, root = args
     d = os.path.join(root, "b%d" % idx)
-    rc, out, err = C.run_bin([C.bin_path("c14"), d], text, timeout=300)
+    # C14_BIN: run another build of the same harness (used to validate a proposed patch on a copy)
+    rc, out, err = C.run_bin([os.environ.get("C14_BIN") or C.bin_path("c14"), d], text, timeout=300)
     shutil.rmtree(d, ignore_errors=True)
     return rc, out, err
 
@@ -416,6 +422,9 @@ def evaluate(ctx, texts, label, stats, known_ids):
         stats["evaluations"] += t.count("\nrequest\n")
         stats["obs"] += sum(len(l.split()) - 1 for l in rl if l.startswith("obs"))
         for l in rl:
+            if l.startswith("poke ") and not l.startswith("poke err:"):
+                # a module-private definition was read from source text through |##mm…| (K14d)
+                stats["poke_hits"].append((cid, l))
             if l.startswith("mangle ok"):
                 stats["mangle_checked"] += int(l.split()[2])
             elif l.startswith("mangle bad"):
@@ -501,7 +510,7 @@ def evaluate_quiet(ctx, texts, stats, known_ids):
 def new_stats():
     return {"cases": 0, "evaluations": 0, "obs": 0, "mangle_checked": 0, "mangle_bad": [], "status": {},
             "spec_kinds": {}, "nontrivial": set(), "class": {}, "samples": [], "known_hits": {},
-            "pending": [], "bad": []}
+            "pending": [], "bad": [], "poke_hits": []}
 
 
 def corpus_texts():
@@ -557,6 +566,16 @@ def run(ctx):
         ent = next((k for k in known if k.get("id") == kid), {})
         ctx.known_finding("id=%s class=%s replay=%s reproduced on %d generated/corpus cases (e.g. %s)" % (
             kid, ent.get("class", FIXES[kid][1]), ent.get("replay", "findings/C14-%s.txt" % kid), len(cids), cids[0]))
+    if stats["poke_hits"]:
+        cid, l = stats["poke_hits"][0]
+        if "K14d" in known_ids:
+            ent = next(k for k in known if k.get("id") == "K14d")
+            ctx.known_finding("id=K14d class=%s replay=%s a private definition is readable at top level as "
+                              "|<mangled name>| (%s: %s)" % (ent.get("class"), ent.get("replay"), cid, l))
+        else:
+            ctx.violation("C14-K14d-%s.txt" % cid, open(os.path.join(C.VERIF, "findings", "C14-K14d.txt")).read()
+                          if os.path.exists(os.path.join(C.VERIF, "findings", "C14-K14d.txt")) else
+                          "case %s: %s (a module-private definition is readable through |##mm…|)\n" % (cid, l))
     reported = set()
     for cid, kind, text, body in stats["bad"][:5]:
         if kind in reported:
